@@ -81,3 +81,19 @@ Example C11_nonvacuous :
               OAcquireWrite 101 false; OTryRLocks 2 [0]; OReleaseAll 101; OTryLocks 1 [3]; OTryLocks 2 [4]; OTryLocks 1 [4]]
   = [1; 1; 2; 0; 2; 1; 0; 2; 1; 0; 1].
 Proof. vm_compute. reflexivity. Qed.
+
+(* Where the exclusion does NOT carry over (known finding, C11:halted-mode-switch): the guard set LiteFS takes for a
+   WAL-mode database holds the database file's SHARED lock only shared (C11_internal_write_excludes, wal = true).  That
+   keeps WAL-mode connections out - they need a READ lock - but not a rollback-journal connection, which needs PENDING
+   and SHARED only.  A halt lock keeps its guard set for its whole life; if the holder switches the journal mode and the
+   switch is forwarded, local connections of the new mode get in while forwarded transactions are applied.  Witness: *)
+Example C11_wal_guard_admits_rollback_reader_refuted :
+  match try_acquire_write tinit 100 true with
+  | Some (true, t1) =>
+    match t_tryrlock t1 LPending 8 with
+    | Some (true, t2) => match t_tryrlock t2 LShared 8 with Some (b, _) => b | None => false end
+    | _ => false
+    end
+  | _ => false
+  end = true.
+Proof. vm_compute. reflexivity. Qed.
